@@ -15,6 +15,10 @@
 //	lin <id,id,…>                      witness order found by the untrusted search (search.go)
 //	nolin <why>                        no witness found
 //	attack-nolin <class> <why>         no witness found in a `reset` run (outside the quantifier; echoed)
+//	tr <kind> <fields…>                traced runs: one entry of the protocol trace recorded by the hook
+//	                                   (hooks/C26-daemon-trace.patch), see trace.go
+//	trend <n>                          end of the trace: the Lean acceptor (C26.acceptAll, proved sound:
+//	                                   C26_acceptor_sound) must answer `trace-ok <n>`
 //
 // The Lean driver VALIDATES the witness with the proved checker
 // C26.isLinearization against the sequential store model of C24 and must
@@ -38,12 +42,31 @@ func init() { common.Register("C26", run) }
 
 // runState accumulates the lines of the current history (also in replays).
 type runState struct {
-	desc  string
-	kind  string
-	ops   map[int]*opRec
-	order []int
-	pos   int64
-	tag   string
+	desc    string
+	kind    string
+	ops     map[int]*opRec
+	order   []int
+	pos     int64
+	tag     string
+	trSeen  map[string]bool
+	trOps   map[string]string // traced call id -> operation
+	trPairs []string          // operation => reply of every `ret` entry
+}
+
+// normOp renders op fields for comparison (the blacklist of dirs as a sorted set).
+func normOp(f []string) string {
+	if len(f) == 2 && f[0] == "dirs" && f[1] != "-" {
+		ks := strings.Split(f[1], ",")
+		sort.Strings(ks)
+		var u []string
+		for i, k := range ks {
+			if i == 0 || k != ks[i-1] {
+				u = append(u, k)
+			}
+		}
+		return "dirs " + strings.Join(u, ",")
+	}
+	return strings.Join(f, " ")
 }
 
 func (s *runState) reset(desc string) {
@@ -52,6 +75,9 @@ func (s *runState) reset(desc string) {
 	s.ops = map[int]*opRec{}
 	s.order = nil
 	s.pos = 0
+	s.trSeen = map[string]bool{}
+	s.trOps = map[string]string{}
+	s.trPairs = nil
 }
 
 func run(c *common.Ctx) error {
@@ -93,6 +119,7 @@ type genStats struct {
 	hard                                                                    []string
 	dumpDir                                                                 string
 	maxSteps                                                                int
+	traces, traceEntries                                                    int
 }
 
 func gen(c *common.Ctx, emit func(...string), root string, nRuns int, gs *genStats) {
@@ -101,6 +128,9 @@ func gen(c *common.Ctx, emit func(...string), root string, nRuns int, gs *genSta
 		seed := c.Rand.U64() >> 1
 		kind := kinds[i%len(kinds)]
 		sc := genScenario(c.Rand, kind, seed)
+		// every other run without severed connections also records the protocol
+		// trace (the hook serialises dialling and the service methods while it does)
+		sc.traced = (kind == "own" || kind == "shared" || kind == "mixed") && (i/len(kinds))%2 == 0
 		t0 := time.Now()
 		h := runScenario(root, sc)
 		gs.runTime += time.Since(t0)
@@ -118,6 +148,8 @@ func gen(c *common.Ctx, emit func(...string), root string, nRuns int, gs *genSta
 		}
 	}
 	c.Extra["traces_validated_against_impl"] = gs.validated
+	c.Extra["protocol_traces_validated_by_the_acceptor"] = gs.traces
+	c.Extra["protocol_trace_entries"] = gs.traceEntries
 	c.Extra["histories"] = gs.histories
 	c.Extra["history_operations"] = gs.ops
 	c.Extra["pending_operations"] = gs.pending
@@ -134,7 +166,21 @@ func gen(c *common.Ctx, emit func(...string), root string, nRuns int, gs *genSta
 	c.Extra["seconds_searching_witnesses"] = int(gs.searchTime.Seconds())
 }
 
-func emitHistory(h *history, emit0 func(...string), gs *genStats) {
+// emitHistory emits the history lines and, for a traced run, the recorded protocol trace.
+func emitHistory(h *history, emit func(...string), gs *genStats) {
+	emitHistoryLines(h, emit, gs)
+	if h.traced && h.setup == "" && h.hang == "" {
+		ls := traceLines(h.trace)
+		for _, l := range ls {
+			emit(append([]string{"tr"}, l...)...)
+		}
+		emit("trend", strconv.Itoa(len(ls)))
+		gs.traces++
+		gs.traceEntries += len(ls)
+	}
+}
+
+func emitHistoryLines(h *history, emit0 func(...string), gs *genStats) {
 	var lines []string
 	emit := func(f ...string) {
 		lines = append(lines, strings.Join(f, "\t"))
@@ -328,6 +374,23 @@ func impl(stAny any, f []string) string {
 	case "attack-nolin":
 		st.tag = "reset-attack:no-witness:" + f[1]
 		return "attack-nolin"
+	case "tr":
+		// the entry was recorded from the real code; the model side parses it (`ok`)
+		// and judges the whole trace at `trend`
+		if len(f) > 1 && !st.trSeen[f[1]] {
+			st.trSeen[f[1]] = true
+			st.tag = "trace-entry:" + f[1]
+		}
+		if len(f) > 4 && f[1] == "invoke" {
+			st.trOps[f[2]] = normOp(f[4:])
+		}
+		if len(f) > 3 && f[1] == "ret" {
+			st.trPairs = append(st.trPairs, st.trOps[f[2]]+" => "+strings.Join(f[3:], " "))
+		}
+		return "ok"
+	case "trend":
+		st.tag = "trace:" + st.kind
+		return "trace-ok " + f[1]
 	}
 	return "bad-op"
 }
